@@ -100,6 +100,7 @@ struct Config {
     bool lines = true;                   // include line numbers (se, err); false -> null
     bool columns = false;                // err events get a 4th element: the column number
     bool disableDefaultEntityResolution = false;
+    bool releaseDocs = true;             // DOM/DOMLS: resetDocumentPool() after the tree was dumped (a reused parser otherwise keeps every document)
     XMLEntityResolver* resolver = nullptr;   // not owned
     std::string sysId = "mem.xml";       // system id given to parseBytes' MemBufInputSource
 
@@ -592,6 +593,7 @@ private:
         k.r->errorCount = (long)domp->getErrorCount();
         pending = eh.held;
         dumpDoc(k, domp->getDocument());
+        if (cfg.releaseDocs) domp->resetDocumentPool();
     }
     void runLs(detail::Sink& k, const InputSource& src) {
         detail::DomErr eh(k);
@@ -603,6 +605,7 @@ private:
         try { doc = lsp->parse(&in); } catch (...) { pending = eh.held; throw; }
         pending = eh.held;
         dumpDoc(k, doc);
+        if (cfg.releaseDocs) lsp->resetDocumentPool();
     }
     void dumpDoc(detail::Sink& k, const DOMDocument* doc) {
         if (doc) detail::walkDom(k, doc);
